@@ -45,6 +45,13 @@ type Scenario struct {
 	Rounds     int    `json:"rounds"` // priority: number of rounds
 	Late       bool   `json:"late"`   // priority: late-comers join during the hand-over chain
 	SharedObj  bool   `json:"shared_obj"`
+	// kind "handover" (scenario_handover.go): rounds in which the primitive is full, waiters with SHORT and long acquire
+	// timeouts queue, the short ones time out (Lock: some are cancelled) while the others keep waiting, then the holders
+	// release / the event is set, with timeout-0 newcomers racing the hand-over
+	Kind    string `json:"kind,omitempty"`
+	ShortMs int    `json:"short_ms,omitempty"` // short acquire timeout in ms (millisecond flag); 0 = one second (second wheel)
+	BoundMs int    `json:"bound_ms,omitempty"` // a confirmed waiter must be served within this delay once the primitive is available
+	Cancel  bool   `json:"cancel,omitempty"`   // lock: some queued waiters are cancelled (Lock.CancelWait) instead of timing out
 }
 
 type Config struct {
@@ -70,10 +77,13 @@ type Ev struct {
 	Err  string `json:"err,omitempty"`
 	Prio int    `json:"prio,omitempty"`
 	Dep  int    `json:"depth,omitempty"`
-	Hold int    `json:"hold,omitempty"` // +1: a definite hold starts here, -1: it ends here
+	Hold int    `json:"hold,omitempty"`   // +1: a definite hold starts here, -1: it ends here
+	Kind string `json:"kind,omitempty"`   // handover scenarios: holder | short | long | cancel | newcomer | probe
+	Tmo  int64  `json:"tmo_ms,omitempty"` // handover scenarios: the acquire timeout of this call in ms
 }
 
 type Violation struct {
+	Liveness bool     `json:"liveness,omitempty"` // real-time alarm (re-run before it is reported)
 	Scenario string   `json:"scenario"`
 	Sig      string   `json:"sig"`
 	What     string   `json:"what"`
@@ -120,14 +130,27 @@ var epoch = time.Now()
 type glog struct {
 	g   int
 	evs []Ev
+	mu  sync.Mutex // uncontended except when a round is judged while a stranded actor is still blocked in a call
 }
 
 func (l *glog) add(e Ev) Ev {
 	e.G = l.g
 	e.T = int64(time.Since(epoch))
+	l.mu.Lock()
 	e.Seq = atomic.AddInt64(&clock, 1)
 	l.evs = append(l.evs, e)
+	l.mu.Unlock()
 	return e
+}
+
+// snapshot returns a copy of the events from index `from` on
+func (l *glog) snapshot(from int) []Ev {
+	l.mu.Lock()
+	defer l.mu.Unlock()
+	if from > len(l.evs) {
+		from = len(l.evs)
+	}
+	return append([]Ev(nil), l.evs[from:]...)
 }
 
 func merge(logs []*glog) []Ev {
@@ -405,7 +428,15 @@ func run(cfg *Config, out *Output) int {
 			target = px.ln.Addr().String()
 		}
 		fmt.Fprintf(os.Stderr, "[c19run %s] scenario %s prim=%s g=%d conns=%d via=%s proxy=%v\n", time.Now().Format("15:04:05"), sc.ID, sc.Prim, sc.Goroutines, sc.Conns, sc.Via, sc.Proxy)
-		res, viols := runScenario(sc, target, px)
+		res, viols := runScenario(sc, target, px, addr["leader"])
+		if sc.Kind == "handover" {
+			// the liveness monitors use real time: a stalled machine could fake a late hand-over.  A scenario with such an
+			// alarm is re-run twice (same parameters, fresh keys, 1.5x the bound) and the alarm is reported only when it
+			// reproduces in at least one re-run; safety alarms (admission, order) are reported as they are.
+			viols = confirmLiveness(sc, &res, viols, func(sc2 Scenario) (ScenResult, []Violation) {
+				return runScenario(sc2, target, px, addr["leader"])
+			})
+		}
 		out.Results = append(out.Results, res)
 		out.Violations = append(out.Violations, viols...)
 		// the servers must still be alive
